@@ -8,8 +8,8 @@ import sys
 from .common import ENV, HARNESS, ROOT, SPEC, ToolError, build_harness, hbin, sh, tlc_cached
 
 MODELS = {
-    "quick": [("all3", "Agg_all3.cfg"), ("core4", "Agg_core4.cfg"), ("uses4", "Agg_uses4.cfg"), ("build4", "Agg_build4.cfg")],
-    "thorough": [("all3", "Agg_all3.cfg"), ("core4", "Agg_core4.cfg"), ("uses4", "Agg_uses4.cfg"), ("build4", "Agg_build4.cfg"), ("core5", "Agg_core5.cfg")],
+    "quick": [("all3", "Agg_all3.cfg"), ("core4", "Agg_core4.cfg"), ("uses4", "Agg_uses4.cfg"), ("build4", "Agg_build4.cfg"), ("shape4", "Agg_shape4.cfg")],
+    "thorough": [("all3", "Agg_all3.cfg"), ("core4", "Agg_core4.cfg"), ("uses4", "Agg_uses4.cfg"), ("build4", "Agg_build4.cfg"), ("shape4", "Agg_shape4.cfg"), ("core5", "Agg_core5.cfg")],
 }
 
 
@@ -27,6 +27,9 @@ def artefacts(tier):
         out.append((name,) + tlc_cached(f"agg-{name}", "MC_Agg", cfg, workers=8, timeout=3600, keep=("REPLAY",)))
     # the code as found before the repair: TLC must report the violation (the model can tell the difference)
     found = tlc_cached("agg-found", "MC_Agg", "Agg_found.cfg", workers=4, timeout=900, keep=("NOTHING",), expect_violation="Satisfies")
+    tlc_cached("agg-found2", "MC_Agg", "Agg_found2.cfg", workers=4, timeout=900, keep=("NOTHING",), expect_violation="OneImportPerKey")
+    # the ideal (owner imports aggregated like requirements, KF24 repaired) meets the contract with nothing excused
+    tlc_cached("agg-ideal", "MC_Agg", "Agg_ideal.cfg", workers=4, timeout=900, keep=("NOTHING",))
     return out, found
 
 
@@ -66,15 +69,23 @@ def run_property(prop, tier, report):
     cov["histories_composed_and_decoded"] = tot["composed"]
     cov["models"] = [m[0] for m in models]
     cov["exhaustive"] = True
-    cov["rule"] = ("every sequence (= every multiset in every order) of up to 3 of the 37 contributors, up to 4 (thorough 5) of "
-                   "the 12-contributor version/conflict core and up to 4 of the used-type contributors: TLC checks that the "
+    cov["rule"] = ("every sequence (= every multiset in every order) of up to 3 of the 44 contributors, up to 4 (thorough 5) of "
+                   "the 12-contributor version/conflict core, up to 4 of the used-type contributors and up to 4 of the 13 "
+                   "shape contributors (shared function type definitions, a resource required directly / through a user / "
+                   "through a user only): TLC checks that the "
                    "code-shaped aggregator of Agg.tla meets the declarative contract (fails exactly on incompatible pairs, one "
                    "import per compatibility key under the highest version, unions, redirects, merged <: contributor, "
                    "idempotence); each history is replayed into TypeAggregator with every contributor decoded into its own "
                    "Types: outcome, imported names, merged kinds incl. used types, canonical names, SubtypeChecker merged <: "
-                   "requirement; whole-component histories are also composed with CompositionGraph::encode and the imports "
-                   "of the validated output read back by the independent decoder")
+                   "requirement, use-transparency (a used type is the type its source interface exports: same resource "
+                   "after resolving aliases; handles name that resource); whole-component histories are also composed with "
+                   "CompositionGraph::encode and the imports of the validated output read back by the independent decoder "
+                   "(names, kinds, number of distinct resources).  Agg_found.cfg / Agg_found2.cfg: TLC refutes Satisfies / "
+                   "OneImportPerKey for the code as found before 18a947f / 921573d; Agg_ideal.cfg: the design with KF24 "
+                   "repaired meets every invariant with nothing excused")
     cov["samples"] = [{"h": [25, 26], "meaning": "nested instance {n:{x}} then {n:{x,y}} on one track"},
                       {"h": [32, 30], "meaning": "types@0.2.0 + user, then types@0.2.1 with one more export"}]
-    report.assumptions.append("component-, module-, value- and resource-kinded requirements are not in the universe (KF18: "
-                              "component/module imports cannot be encoded); import order is not compared (the property excludes it)")
+    report.assumptions.append("component-, module- and value-kinded requirements and worlds are not in the universe (KF18: "
+                              "component/module imports cannot be encoded); resources appear as exports of interfaces only; "
+                              "import order is not compared (the property excludes it); in histories of shape "
+                              "`owner-import-name` (KF24) the name of the owner's import is excused, its key and kind are not")
